@@ -49,7 +49,7 @@ def run(tier):
                 key = [st, kind, psig(o) if st == "panic" else o.get("msg", "")[:40]]
             ck.cell(key)
             if st == "panic":
-                ck.violation(psig(o), dict(input=src, backend=backend, workload=cls, panic=common.brief(o)))
+                ck.violation(psig(o) + "|" + kind, dict(input=src, backend=backend, workload=cls, panic=common.brief(o)))
             elif st == "abort":
                 ck.violation(f"abort|rc={o.get('rc')}", dict(input=src, backend=backend, workload=cls, outcome=o))
             elif st not in ("ok", "err", "input_unparsable"):
